@@ -315,9 +315,9 @@ func (g *generator) funcMap(
 		"quote":       strconv.Quote,
 		"import": func(importPath string) string {
 			for _, name := range file.Imports[importPath] {
-				// importPath exists in the file already. A blank
-				// import does not bind a name we could use.
-				if name != "_" {
+				// importPath exists in the file already. A blank or
+				// dot import does not bind a name we could use.
+				if name != "_" && name != "." {
 					return name
 				}
 			}
@@ -350,6 +350,11 @@ func (g *generator) typePrinter(f *file, addImports map[string]string, aliases m
 					if imp.Name.Name == "_" {
 						// A blank import does not bind a name.
 						continue
+					}
+					if imp.Name.Name == "." {
+						// A dot import puts the package's names
+						// into the file's scope.
+						return ""
 					}
 					return imp.Name.Name
 				}
